@@ -358,7 +358,7 @@ func ruleR17_3(w *World, r *Report) {
 
 func ruleR17_4(w *World, r *Report) {
 	u := w.Server()
-	r.Rule("R17.4", "every purge of a shared collection (operations, snapshots, datatypes, clients) filters by the collection-number field of the document type stored there, with the purged collection's number", 5)
+	r.Rule("R17.4", "every purge of a shared collection (operations, snapshots, datatypes, clients) filters by the collection-number field of the document type stored there, with the purged collection's number", 2)
 	p := u.Pkgs[pMongo]
 	if p == nil {
 		r.Lost("package server/mongodb")
@@ -489,7 +489,7 @@ func ruleR17_4(w *World, r *Report) {
 		}
 		scan(root, map[ssa.Value]ssa.Value{}, 0)
 	}
-	if n < 5 {
+	if n < 2 { // three purge sites may legitimately become one loop over a table, which this rule does not read
 		r.Lost(fmt.Sprintf("purges of shared collections (found %d)", n))
 	}
 	// the purge entry point passes the number of the named collection
